@@ -46,6 +46,12 @@ var c19Queries = []string{
 	"SELECT a FROM t WHERE a > ? LIMIT 1",
 	"SELECT a, AWAIT(vfault(a)) AS v FROM t WHERE a > ?",
 	"SELECT a, (SELECT AWAIT(vfault(p)) AS w FROM items) AS sub FROM t WHERE a > ?",
+	// a synchronous step among the arguments of a background call
+	"SELECT a, SPIN.vnoop(vfault(a)) FROM t WHERE a > ?",
+	"SELECT a, SPIN.vnoop(a + s) FROM t WHERE a > ?",
+	"SELECT a, ASYNC.vnoop(vfault(a)) AS v FROM t WHERE a > ?",
+	"SELECT a, SPINASYNC.vnoop(1, vfault(a)) FROM t WHERE a > ?",
+	"SELECT a, ONCE.vnoop(vfault(a)) AS v FROM t WHERE a > ?",
 }
 
 // H_C19_faults: a user function failing at its k-th invocation (any k), a
@@ -66,7 +72,9 @@ func H_C19_faults() {
 	pristine := Map{"t": deepCopyRows(rows), "g": float64(5)}
 	c := verif.F64("c")
 	sql := verif.SQL(c19Queries[qi], c)
+	RegisterFunction("vnoop", func(q *Query, cur Map, o *FunctionOptions, args []any) (any, error) { return nil, nil })
 	got, err := runQueryQuiet(doc, sql)
+	verif.Drain() // background calls still running have finished before the counters are read
 	fired := faultAt != 0 && faultCalls >= faultAt
 	if fired {
 		verif.Assert(err != nil, "fault-surfaces-as-error")
